@@ -90,6 +90,8 @@ func toGo(v value) (interface{}, bool) {
 	return nil, false
 }
 
+type onceState struct{ running, done bool }
+
 func mustStr(v value) string {
 	s, ok := v.(*bytesV).goString()
 	if !ok {
@@ -138,10 +140,29 @@ func (e *Engine) setupExt() {
 	x["time.Since"] = func(e *Engine, fr *frame, a []value) value { return BV(64, 0) }
 	x["(*sync.Once).Do"] = func(e *Engine, fr *frame, a []value) value {
 		p := a[0].(*value)
-		if !e.onces[p] {
-			e.onces[p] = true
-			e.callAny(nil, a[1], nil, 0)
+		st, _ := e.objs[p].(*onceState)
+		if st == nil {
+			st = &onceState{}
+			e.objs[p] = st
+			if e.onces[p] { // completed during the (snapshotted) initialiser phase
+				st.done = true
+			}
 		}
+		e.yield()
+		if st.done {
+			e.hbAcquire(st)
+			return nil
+		}
+		if st.running {
+			e.block(func() bool { return st.done }, "sync.Once.Do")
+			e.hbAcquire(st)
+			return nil
+		}
+		st.running = true
+		e.callAny(nil, a[1], nil, 0)
+		st.done = true
+		e.onces[p] = true
+		e.hbRelease(st)
 		return nil
 	}
 	// byte searches are formulas over the cells, not forks: the result is an ite
